@@ -164,8 +164,8 @@ def cmp_leaves(ck, key, what, got_tree, ref_leaves, S, exact=True, rtol=1e-13, s
                          **wit)
             return False
         m = np.ones(r.shape, bool) if skipmask is None else ~skipmask[j]
-        if exact:
-            ok = np.array_equal(g[m], r[m], equal_nan=True)
+        if exact or r.dtype.kind in "biu":
+            ok = np.array_equal(g[m], r[m], equal_nan=(r.dtype.kind in "fc"))
         else:
             sc = np.max(np.abs(r[m]), initial=0.0) + np.max(np.abs(g[m]), initial=0.0)
             ok = bool(np.all(np.abs(g[m] - r[m]) <= rtol * sc + 1e-300)) and bool(np.all(np.isfinite(g[m]) == np.isfinite(r[m])))
